@@ -270,3 +270,28 @@ PROPS["C03"] = dict(
         technique="property-based testing (rapid) with a reference classifier by construction and a request-log oracle; stateful fetch histories",
     ),
 )
+
+PROPS["C04"] = dict(
+    pkg="c04",
+    level="exploration",
+    rule=("URLs assembled from hostile parts (scheme variants incl. http and other schemes aimed at a plaintext canary port; userinfo; "
+          "authorities with trailing dot, empty/huge ports, embedded CR/LF; paths and queries with spaces, raw and %-encoded CR/LF/TAB/NUL, "
+          "invalid escapes, non-ASCII, '..', fragments) used as user input, planted in served documents (inReplyTo, attributedTo, "
+          "audience, replies, first, items, id) and as Location headers; webfinger handles with hostile account and domain parts. "
+          "Oracle at the simulator for every accepted connection: TLS negotiated; bytes are exactly 'GET target HTTP/1.0 CRLF Host: "
+          "authority CRLF Accept: constant CRLF CRLF' with nothing after; target starts with '/' and has no SP/CTL; Host designates "
+          "the contacted listener; for clean URLs the target equals the one known by construction; the plaintext canary is never "
+          "contacted. Non-trivial: the input has a hostile element and led to at least one connection beyond the planted document's own "
+          "fetch. Distinct = distinct case."),
+    units=[
+        rapid("Prop", "TestProp", 12000, 300000, config_toml=_NET + "cache_size = 1\n"),
+    ],
+    manifest=dict(
+        text=("Property-based testing with a byte-exact request recogniser at the loopback TLS simulator plus a plaintext canary; "
+              "hostile URLs and handles are injected through every path by which they can arrive (user input, document fields, "
+              "Location). Sampled."),
+        design_ref="DESIGN.md §3 C04",
+        note="Trusted: the recogniser regexp in harness/c04 and the simulator's request capture.",
+        technique="property-based testing (rapid) with a byte-exact request recogniser at a loopback TLS adversary",
+    ),
+)
